@@ -327,7 +327,7 @@ CHECKS["C11"] = dict(
 )
 
 CHECKS["C05"] = dict(
-    explanation="GET versus overwriting PUT / DELETE on one existing key on the file-system model, possibly through two gateway processes: one of the two "
+    explanation="GET versus a writer (overwriting PutObject, DeleteObject, CopyObject from another key, CompleteMultipartUpload) and writer versus a second PutObject on one existing key on the file-system model, possibly through two gateway processes: one of the two "
                 "operations runs to completion between two consecutive file-system steps of the other, for every position and both nesting directions; "
                 "a successful GET returns exactly one write's complete body with that write's ETag, an overwritten key never reads as missing, a read "
                 "after the acknowledged write sees it.",
@@ -335,7 +335,7 @@ CHECKS["C05"] = dict(
         dict(name="H05-interleave", entry="backend/posix.VfInterleave", reach=["interleaved"], key_trace=['"other operation runs before'], **_FS),
     ],
     assumptions=["file-system model with atomic namespace steps", "schedules in which BOTH operations are split (A1 B1 A2 B2) are not explored"],
-    outside=["more than two concurrent operations", "writer/writer races", "multipart completion and copy as writers", "sidecar metadata store"],
+    outside=["more than two concurrent operations", "schedules that split both operations", "bodies longer than one byte", "HEAD as the reader", "versioned buckets", "sidecar metadata store"],
 )
 
 CHECKS["C17"] = dict(
